@@ -104,7 +104,7 @@ structure St where
   seq : Nat := 1
   mail : List (Nat × Msg) := []
   conn : Conn
-  /-- serial drivers: `_connected` never clears; HID: `conn.up` -/
+  /-- lock and wire events, NEWEST FIRST (ghost) -/
   log : List (Tid × Ev) := []
   deriving Repr
 
@@ -117,7 +117,8 @@ def wireOf : List (Tid × Ev) → List (Tid × WFrame)
   | (t, .write f) :: l => (t, f) :: wireOf l
   | _ :: l => wireOf l
 
-def St.wire (s : St) : List (Tid × WFrame) := wireOf s.log
+/-- the wire trace in the order the gateway saw it -/
+def St.wire (s : St) : List (Tid × WFrame) := (wireOf s.log).reverse
 
 /-- first mailbox entry carrying `tag` that `sel` accepts, and the mailbox without it -/
 def takeMail (tag : Nat) (sel : Msg → Bool) : List (Nat × Msg) → Option (Msg × List (Nat × Msg))
@@ -150,8 +151,8 @@ def actStep (s : St) (t : Tid) : Option St :=
     | st :: rest =>
       let adv : St := setTask s t { tk with prog := rest }
       match st.act with
-      | .acq => if s.lock = none then some { adv with lock := some t, log := s.log ++ [(t, .acq)] } else none
-      | .rel => some { adv with lock := none, log := s.log ++ [(t, .rel)] }
+      | .acq => if s.lock = none then some { adv with lock := some t, log := (t, .acq) :: s.log } else none
+      | .rel => some { adv with lock := none, log := (t, .rel) :: s.log }
       | .iacq => if s.inner.length < s.cap then some { adv with inner := t :: s.inner } else none
       | .irel => some { adv with inner := s.inner.filter (· ≠ t) }
       | .slot =>
@@ -161,7 +162,7 @@ def actStep (s : St) (t : Tid) : Option St :=
       | .unslot => some { adv with slots := s.slots.filter (·.2 ≠ t) }
       | .connWait => if s.conn.up then some adv else none
       | .connCheck => if s.conn.up then some adv else none
-      | .write f => if s.conn.fd then some { adv with log := s.log ++ [(t, .write f)] } else none
+      | .write f => if s.conn.fd then some { adv with log := (t, .write f) :: s.log } else none
       | .await m _ =>
         match takeMail tk.tag (awaitSel tk.tag m) s.mail with
         | some (m', mail') => if m' = m then some { adv with mail := mail' } else none
@@ -180,7 +181,9 @@ def actStep (s : St) (t : Tid) : Option St :=
       | .close => some adv
   | none => none
 
-/-- the next action of task `t` raises `e` (`cancelled` = the task is cancelled while blocked there) -/
+/-- the next action of task `t` raises `e` (`cancelled` = the task is cancelled while blocked
+there).  A failing `os.write` is the pair `env lose` (the driver's `disconnect(reconnect=True)`
+with its `_shutdown_device`) followed by `raise t comm`. -/
 def raiseStep (s : St) (t : Tid) (e : Err) : Option St :=
   match s.tasks[t]? with
   | some tk =>
@@ -188,19 +191,11 @@ def raiseStep (s : St) (t : Tid) (e : Err) : Option St :=
     | [] => none
     | st :: _ =>
       if !st.act.canRaise then none else
-      -- a failing write is where the driver notices the loss: disconnect(reconnect=True)
-      let s1 : St :=
-        match st.act, e with
-        | .write _, .comm =>
-          (match Conn.step s.conn .lose with
-           | some c' => shutdown { s with conn := c' }
-           | none => s)
-        | _, _ => s
       match e, tk.retry with
       | .comm, some body =>
-        if st.act.canComm then some (setTask s1 t { tk with prog := plain st.hr ++ body })
+        if st.act.canComm then some (setTask s t { tk with prog := plain st.hr ++ body })
         else none
-      | _, _ => some (setTask s1 t { tk with prog := plain st.h, exc := some e })
+      | _, _ => some (setTask s t { tk with prog := plain st.h, exc := some e })
   | none => none
 
 inductive Label
